@@ -63,6 +63,7 @@ Record dispatcher_facts := {
   d_outer_except : list (string * list string);(* around the loop: class -> actions *)
   d_finally : list string;              (* normalised statements of the finally block, in order *)
   d_reset_exempt : list string;         (* verbs after which restart_offset is NOT reset *)
+  d_offset_handed : list string;        (* verbs to which the dispatcher hands the pending offset (transfer_offset) *)
   d_unknown_code : string;              (* reply for a verb missing from the table *)
   d_false_ends : bool;                  (* a handler result False makes the dispatcher return *)
   d_initial_pending : list string;      (* tasks created before the loop *)
